@@ -42,9 +42,14 @@
 (* REQUIRED of a variant event: outcome \in {ok, err}; ok => the           *)
 (*  specification calls the bytes valid and decodes the same value.        *)
 (*                                                                         *)
-(* Known findings: KFTable below (one entry per defect site), identified   *)
-(* by outcome + panic source file + message head + reader function(s) +    *)
-(* format family; any other deviation is a REJECT.                         *)
+(* Known findings: KFTable below, one entry per defect site, identified by *)
+(* outcome + format(s) + source file of the panic + constant head of its   *)
+(* message + the reader module(s) (crate::module of the innermost reader   *)
+(* function on the stack) it is reached from; for a refused allocation the *)
+(* module of the requesting function; a hang has neither and is identified *)
+(* by format + outcome.  A known id only explains the *outcome* of a       *)
+(* session (and the absence of further batches); any other deviation, an   *)
+(* unknown site, or an ill-formed batch is a REJECT.                       *)
 (***************************************************************************)
 EXTENDS Untrusted, ArrowLayout, TraceBase
 
@@ -100,13 +105,21 @@ KFTable == {}
 
 KFMatch(k, e) ==
   /\ e.outcome = k.outcome /\ e.fmt \in k.fmts
-  /\ e.wfile = k.wfile /\ e.msg = k.msg /\ e.fn \in k.fns
+  /\ e.wfile = k.wfile /\ e.msg = k.msg /\ e.fmod \in k.fmods
 
 KF(e) == IF \E k \in KFTable : KFMatch(k, e) THEN (CHOOSE k \in KFTable : KFMatch(k, e)).id ELSE ""
 
-KFVTable == {}
-KFV(e) == IF \E k \in KFVTable : e.ev = k.ev /\ e.outcome = k.outcome /\ e.where = k.where
-          THEN (CHOOSE k \in KFVTable : e.ev = k.ev /\ e.outcome = k.outcome /\ e.where = k.where).id ELSE ""
+(* Variant: a panic is identified like any other (KFTable, fmt = "variant"); *)
+(* an *accepted* invalid encoding is identified by the one rule it breaks:   *)
+(* valid under the relaxation "dup-keys" (VariantFormat!VariantValidR): two  *)
+(* adjacent fields of an object have the same name (the real validator only  *)
+(* rejects decreasing names when the dictionary is not sorted).              *)
+KFV(e) ==
+  IF e.outcome # "ok" THEN KF(e)
+  ELSE IF e.ev = "variant" /\ ~V!VariantValid(e.meta, e.value) /\ V!VariantValidR(e.meta, e.value, {"dup-keys"})
+            /\ e.tok = V!Decode(e.meta, e.value)
+         THEN "C08-variant-object-duplicate-keys"
+  ELSE ""
 
 (* -------------------------------------------------------------- variant *)
 VariantOK(e) ==
@@ -130,7 +143,7 @@ Next == /\ l <= Len(Rec)
            CASE e.ev = "session" ->
                   /\ Judge(EffectOK(e), l, "effect")
                   /\ JudgeKF(OutcomeOK(e), l, "outcome", KF(e))
-                  /\ JudgeKF(BatchesOK(e), l, "batch", KF(e))
+                  /\ Judge(BatchesOK(e), l, "batch")
              [] e.ev = "variant" -> JudgeKF(VariantOK(e), l, "variant", KFV(e))
              [] e.ev = "vmeta" -> JudgeKF(VMetaOK(e), l, "vmeta", KFV(e))
              [] OTHER -> Judge(FALSE, l, "unknown event kind")
